@@ -9,7 +9,7 @@ RULE = (
     "every 2-record file (thorough 3) over rows of <=2 cells from a 7-cell sub-alphabet incl. blank records, 8 dialects: returned "
     "lines == the non-blank rows in order (an unbalanced quote must not swallow the next record); (headers) every header row of 1..3 "
     "unique grammar-expressible names x every data row length 1..len+1: '@n = #name' and '@i = #index' read the same cell, and on a "
-    "short row both read absent with no error; non-trivial = the file contains a character that needs quoting or a ragged row; "
+    "short row both read absent with no error; also 12-record files of ragged rows (1..6 cells) cycling through the alphabet with a blank record at every position; non-trivial = the file contains a character that needs quoting or a ragged row; "
     "state = (dialect, file, records consumed)"
 )
 BOUNDS = {
@@ -46,6 +46,17 @@ def cases(tier, seed):
         for b in r2:
             for d, q in DIALECTS:
                 yield {"kind": "records", "rows": [a, b], "d": d, "q": q}
+    # long files: 12 records cycling through the whole alphabet, blank records at every single position, ragged lengths 0..6
+    for d, q in DIALECTS:
+        for blank_at in [None] + list(range(12)):
+            for shift in (0, 5):
+                rows = []
+                for i in range(12):
+                    if blank_at == i:
+                        rows.append([])
+                    else:
+                        rows.append([H[(i * 7 + j * 3 + shift) % len(H)] for j in range((i + shift) % 6 + 1)])
+                yield {"kind": "records", "rows": rows, "d": d, "q": q}
     for k in (1, 2, 3):
         for hdr in itertools.permutations(HNAMES, k):
             for n in range(1, k + 2):
